@@ -147,6 +147,12 @@ fn class_weights(mode: Prop, kind: Kind, mbuff_len: usize) -> Vec<(Class, u32)> 
                 w.push((Class::ProbeHelperThenPkt, 1));
                 w.push((Class::ProbeCallThenPkt, 1));
             }
+            if kind == Kind::Raw || kind == Kind::Fixed {
+                w.push((Class::ProbePktReload, 1));
+            }
+            if has_pkt {
+                w.push((Class::DeepCall, 1));
+            }
         }
         Prop::C09 => {
             w.push((Class::Const, 2));
@@ -173,6 +179,9 @@ fn class_weights(mode: Prop, kind: Kind, mbuff_len: usize) -> Vec<(Class, u32)> 
                 w.push((Class::ProbePktInd, 3));
                 w.push((Class::ProbeHelperThenPkt, 3));
                 w.push((Class::ProbeCallThenPkt, 2));
+            }
+            if kind == Kind::Raw || kind == Kind::Fixed {
+                w.push((Class::ProbePktReload, 2));
             }
         }
     }
@@ -318,6 +327,17 @@ pub fn generate(rng: &mut Rng, mode: Prop) -> Scenario {
                 }
             }
             Class::StackFill => gen_stack_fill(rng, tag, kind.has_packet()),
+            Class::DeepCall => gen_deep_call(tag),
+            Class::ProbePktReload => {
+                let w = *rng.pick(&[1u8, 2, 4]);
+                let idx = pick_pkt_index(rng, p0len - 8).max(3);
+                let d = if kind == Kind::Fixed { Some(rng.pick(&offsets).0) } else { None };
+                let mut p = gen_probe_pkt_reload(tag, idx, w, rng.chance(1, 2), d);
+                if kind == Kind::Fixed {
+                    p.offsets = offsets.iter().copied().find(|o| Some(o.0) == d);
+                }
+                p
+            }
             Class::PeekOtherProgram => gen_peek_other_program(tag, rng.below(i as u64) as usize), // an earlier pool entry
             Class::Mixed => gen_mixed(rng, tag, kind, p0len, mbuff_len),
             Class::LongAlu => gen_long_alu(rng, tag),
@@ -346,7 +366,7 @@ pub fn generate(rng: &mut Rng, mode: Prop) -> Scenario {
     let mut packets = packets;
     let mut prefix_of = prefix_of;
     if kind.has_packet() {
-        let ends: Vec<usize> = progs.iter().filter(|p| matches!(p.class, Class::ProbePktAbs | Class::ProbePktInd)).map(|p| p.min_pkt).filter(|e| *e <= packets[0].len()).collect();
+        let ends: Vec<usize> = progs.iter().filter(|p| matches!(p.class, Class::ProbePktAbs | Class::ProbePktInd | Class::ProbePktReload)).map(|p| p.min_pkt).filter(|e| *e <= packets[0].len()).collect();
         for e in ends.into_iter().take(2) {
             if rng.chance(1, 2) {
                 packets.push(packets[0][..e].to_vec());
